@@ -23,13 +23,13 @@ var suitesByProp = map[string][]func(*runner, *rng){
 	"C01": {suiteSrt},
 	"C02": {suiteVtt, suiteVttNeeds},
 	"C04": {suiteSsa, suiteSsaModel},
-	"C17": {suiteSchedules, suiteStlIO},
+	"C17": {suiteSchedules, suiteStlIO, suiteTeletextFullReader, suiteTeletextSchedules},
 	"C19": {suiteDeterminism},
 	"C08": {suiteTotality, suiteTeletextHostile},
 	"C06": {suiteTeletext, suiteTeletextModel, suiteTeletextHamming},
 	"C07": {suiteConvert, suiteConvertModel, suiteConvertOps, suiteConvertCLI, suiteConvertRich, suiteConvertPlain, suiteConvertCLIModel, suiteConvertPlainStyled, suiteConvertPlainTtx, suiteConvertStyledTtx},
 	"C20": {suiteConcurrency},
-	"C18": {suiteFaults, suiteStlIO},
+	"C18": {suiteFaults, suiteStlIO, suiteTeletextFullReader, suiteTeletextFaults},
 	"C03": {suiteTtml},
 	"C05": {suiteStl},
 }
